@@ -99,6 +99,9 @@ def falsify(ctx):
         with_null = rng.random() < 0.2
         try:
             hit = check_case(strings, with_null, job, registry)
+        except stages.TooCostly:
+            ctx.count("skip:too-costly")
+            continue
         except Exception as e:  # noqa
             hit = {"kind": "module-does-not-load", "observed": f"{type(e).__name__}: {e}"}
         ctx.case((tuple(strings), job["maxLit"], job["fw"]), nontrivial=len(set(strings)) >= 2)
@@ -111,5 +114,7 @@ def falsify(ctx):
 def replay(ctx, hit):
     try:
         return check_case(hit["strings"], hit["with_null"], hit["job"], stages.make_registry())
+    except stages.TooCostly:
+        raise
     except Exception as e:  # noqa
         return {"kind": "module-does-not-load", "observed": f"{type(e).__name__}: {e}"}
